@@ -1,15 +1,16 @@
 (** C17 — instance collapse transforms contents exactly and leaves the template intact.
     Only statements here; proofs are in Rot/C17GeomProofs.v, SM/C17NameProofs.v, SM/C17RoundsProofs.v,
-    SM/C17SubstProofs.v, SM/C17SitesProofs.v, SM/C17FrameProofs.v (the last one on top of C09's SM/StoreCopyProofs.v).
+    SM/C17SubstProofs.v, SM/C17SitesProofs.v, SM/C17FrameProofs.v (the last one on top of C09's SM/StoreCopyProofs.v),
+    SM/C17GlobalProofs.v, SM/C17CacheProofs.v, SM/C17ComposeProofs.v.
     Every [g_...] below is GENERATED from today's math.py / vmf.py / instancing.py (Gen/C17Formulas_gen.v) by
     symbolic execution of the Python method bodies; [place], [vrot], [mmul], [uvplace], [texcoord], [orth] are the
     hand-written specification (Rot/C17Base.v).  Arithmetic is over R: floating-point rounding is outside the model. *)
 From Coq Require Import Reals NArith ZArith List String.
 From SV Require Import Rot.C17Base SM.C17Name SM.C17Rounds SM.C17Subst SM.C17Sites SM.Store SM.StoreProofs SM.StoreCopy
-                       SM.StoreCopyProofs SM.C17Frame
+                       SM.StoreCopyProofs SM.C17Frame SM.C17Global SM.C17Cache SM.C17Compose
                        Gen.C17Formulas_gen
                        Rot.C17GeomProofs SM.C17NameProofs SM.C17RoundsProofs SM.C17SubstProofs SM.C17SitesProofs
-                       SM.C17FrameProofs.
+                       SM.C17FrameProofs SM.C17GlobalProofs SM.C17CacheProofs SM.C17ComposeProofs.
 Import ListNotations.
 (* String is imported for the census names; [length] keeps meaning the length of a list *)
 Local Notation length := List.length (only parsing).
@@ -35,6 +36,20 @@ Definition value_sites_present : bool :=
   name_labels_present g_collapse_sites name_site_labels && labels_present g_collapse_sites plain_site_labels.
 Definition brushes_and_entities_copied : bool :=
   forallb (fun c => existsb (String.eqb c) g_collapse_copied_classes) ["Solid"; "Entity"]%string.
+
+(* every function of instancing.py that mentions a module-level mutable object (collapse_one always), as a skeleton:
+   decisions on such an object guard logging / updates of the object only, nothing else reads it *)
+Definition process_state_only_gates_logging : bool :=
+  forallb (fun f => fn_ok (snd f)) g_process_state_functions.
+Definition collapse_one_skeleton_present : bool :=
+  existsb (fun f => str_eqb (fst f) [99;111;108;108;97;112;115;101;95;111;110;101]%N) g_process_state_functions.
+
+(* EntityFixup keeps the compiled pattern of `substitute` in an attribute: every method that may change the key set of the
+   table resets it, a copy that takes the pattern along has the same keys (one shape per method, SM/C17Cache.v) *)
+Definition fixup_pattern_cache_reset_on_key_change : bool :=
+  forallb (fun r => shape_ok (snd r)) g_fixup_cache_shapes.
+Definition fixup_pattern_cache_has_mutators : bool :=
+  existsb (fun r => match snd r with SChange _ => true | _ => false end) g_fixup_cache_shapes.
 
 (** *** Positions: the originals rotated by the instance angles, then offset by its origin. *)
 Theorem c17_localise_point : forall p o m, g_vec_localise p o m = place p o m.
@@ -238,6 +253,96 @@ Theorem c17_inplace_writes_are_deep : forall all ws, writes_ok all ws = true ->
   forall cls f, In (cls, f, WInPlace) ws ->
   exists c k, In (cls, c) all /\ In (f, k, HDeep) c /\ field_fresh k HDeep = true.
 Proof. exact inplace_writes_are_deep. Qed.
+
+(** *** Process-global state (module-level mutable objects of instancing.py: the log de-duplication set, the logger)
+    cannot influence a result.  For every control-flow skeleton in which decisions on such an object guard only logging
+    and updates of the object itself ([gates_ok]; kernel-checked for the skeletons generated from today's collapse_one
+    and every other function that mentions such an object), and for EVERY meaning of the statements, conditions, loop
+    counts and exceptions ([sem]): the program state and the way control leaves the function are the same whatever
+    the global state was at entry ... *)
+Theorem c17_result_independent_of_process_state : forall (St G : Type) (m : sem St G) p, gates_ok p = true ->
+  forall s g1 g2, result St G (run St G m p s g1) = result St G (run St G m p s g2).
+Proof. exact noninterference. Qed.
+
+(** ... hence for any history of such calls in one process (first collapse, hundredth collapse, before or after
+    reset_keyvalue_warnings): "collapsing the same file any number of times, in any order". *)
+Theorem c17_collapse_history_independent_of_process_state : forall (St G : Type) (m : sem St G) ps,
+  forallb gates_ok ps = true ->
+  forall s g1 g2, fst (run_many St G m ps s g1) = fst (run_many St G m ps s g2).
+Proof. exact history_independent. Qed.
+
+(** The guard-clause shape `if key in SEEN: continue` in front of the store is rejected, and rightly so: two collapses
+    write one keyvalue instead of two, one collapse depends on what the process did before. *)
+Theorem c17_process_state_gate_refuted :
+  gates_ok shape_guard_clause = false /\ gates_ok shape_log_once = true /\
+  fst (run_many nat bool demo_sem [shape_guard_clause; shape_guard_clause] 0%nat false) = 1%nat /\
+  fst (run_many nat bool demo_sem [shape_log_once; shape_log_once] 0%nat false) = 2%nat /\
+  result nat bool (run nat bool demo_sem shape_guard_clause 0%nat false) <> result nat bool (run nat bool demo_sem shape_guard_clause 0%nat true).
+Proof. exact process_state_gate_refuted. Qed.
+
+(** A function of the module seen from its callers ([KCall]: `return` ends it, exceptions propagate; the skeleton of a
+    callee that touches the module-level state is inlined at the call, so the global state is threaded through helpers
+    and through collapse_all's loop of collapse_one calls): with [fn_ok] - every decision on the global state guards
+    quiet code, or the whole body is quiet up to bare `return`s - a call leaves the same program state and raises or
+    not independently of the global state.  This is the statement the obligation `process_state_only_gates_logging`
+    instantiates for every function of instancing.py that touches the module-level state, directly or through calls. *)
+Theorem c17_call_independent_of_process_state : forall (St G : Type) (m : sem St G) body, fn_ok body = true ->
+  forall s g1 g2, result St G (run St G m (KCall body) s g1) = result St G (run St G m (KCall body) s g2).
+Proof. exact call_noninterference. Qed.
+
+(** Helper shapes: `def warn_once(k): if k in SEEN: return; log; SEEN.add(k)` called before the store is accepted (and two
+    collapses write two keyvalues); a helper whose return value depends on SEEN, used by the caller to skip the store, is not. *)
+Theorem c17_process_state_helper_shapes : gates_ok shape_helper_log_once = true /\ gates_ok shape_helper_decides = false /\
+  fst (run_many nat bool demo_sem [shape_helper_log_once; shape_helper_log_once] 0%nat false) = 2%nat.
+Proof. exact shape_helpers. Qed.
+
+(** *** The parts together: "collapsing the same file any number of times, in any order and at any placement, gives
+    results that differ only by that placement".  For any abstract collapse (template, process state, placement, other
+    arguments -> what is added to the map, template and process state afterwards) that (1) reads the template only
+    through its observations, (2) leaves those observations unchanged (c17_template_intact_any_number_of_collapses),
+    (3) gives a result independent of the process state (c17_call_independent_of_process_state) and (4) is equivariant
+    in the placement (c17_placement_equivariance): every result of any history of collapses in one process is what that
+    call alone gives on the untouched template in a new process at the identity placement, moved to its own placement.
+    The four hypotheses are visible; their link to the part models is by reading (SM/C17Compose.v). *)
+Theorem c17_each_collapse_as_if_first : forall (T G P A M Obs : Type) (obs : T -> Obs) (collapse : T -> G -> P -> A -> M * T * G)
+    (ident : P) (transform : P -> M -> M),
+  (forall t t' g p a, obs t = obs t' -> c_out T G M (collapse t g p a) = c_out T G M (collapse t' g p a)) ->
+  (forall t g p a, obs (c_tmpl T G M (collapse t g p a)) = obs t) ->
+  (forall t g g' p a, c_out T G M (collapse t g p a) = c_out T G M (collapse t g' p a)) ->
+  (forall t g p a, c_out T G M (collapse t g p a) = transform p (c_out T G M (collapse t g ident a))) ->
+  forall cs t g g0, c_history T G P A M collapse cs t g = map (as_if_first T G P A M collapse ident transform t g0) cs.
+Proof. exact each_result_as_if_first. Qed.
+
+(** ... hence the order of the collapses does not matter (a permuted history gives the permuted results). *)
+Theorem c17_collapse_order_independent : forall (T G P A M Obs : Type) (obs : T -> Obs) (collapse : T -> G -> P -> A -> M * T * G)
+    (ident : P) (transform : P -> M -> M),
+  (forall t t' g p a, obs t = obs t' -> c_out T G M (collapse t g p a) = c_out T G M (collapse t' g p a)) ->
+  (forall t g p a, obs (c_tmpl T G M (collapse t g p a)) = obs t) ->
+  (forall t g g' p a, c_out T G M (collapse t g p a) = c_out T G M (collapse t g' p a)) ->
+  (forall t g p a, c_out T G M (collapse t g p a) = transform p (c_out T G M (collapse t g ident a))) ->
+  forall cs cs' t g, Permutation.Permutation cs cs' ->
+  Permutation.Permutation (c_history T G P A M collapse cs t g) (c_history T G P A M collapse cs' t g).
+Proof. exact order_independent. Qed.
+
+(** *** `substitute` is a function of the current table, although the compiled pattern is cached on the object.
+    For every list of method shapes passing [shape_ok] (the generated one does: obligation
+    `fixup_pattern_cache_reset_on_key_change`), every history of method calls and substitutions on a new table, every
+    effect of the methods on the key set: the pattern the next substitution scans with is the one compiled from the keys
+    defined at that moment - the premise under which SM/C17Subst.v models `substitute` without any state. *)
+Theorem c17_substitute_pattern_is_current : forall (Keys Pat : Type) (compile : Keys -> Pat) h k,
+  forallb (pc_action_ok Keys) h = true ->
+  fst (pc_lookup Keys Pat compile (pc_run Keys Pat compile h (pc_fresh Keys Pat k))) =
+  compile (pc_keys Keys Pat (pc_run Keys Pat compile h (pc_fresh Keys Pat k))).
+Proof. exact substitute_uses_current_keys. Qed.
+
+(** Needed: a method that adds a key and keeps the cached pattern (substitute; add variable 1; substitute) scans with the
+    pattern of the old key set; with the reset it scans with the new one. *)
+Theorem c17_stale_pattern_refuted :
+  shape_ok (SChange false) = false /\
+  fst (pc_lookup _ _ (fun k => k) (pc_run _ _ (fun k => k) (demo_history false) (pc_fresh _ _ []))) = [] /\
+  pc_keys _ _ (pc_run _ _ (fun k => k) (demo_history false) (pc_fresh _ _ [])) = [1%nat] /\
+  fst (pc_lookup _ _ (fun k => k) (pc_run _ _ (fun k => k) (demo_history true) (pc_fresh _ _ []))) = [1%nat].
+Proof. exact stale_cache_refuted. Qed.
 
 Local Open Scope nat_scope.
 (** *** collapse_all terminates: at most recur_limit rounds, then RecursionError; success iff the inclusion depth
